@@ -209,6 +209,10 @@ def catalogue():
     return cat
 
 
+# analyzers for which a quoted run of the document's own words is NOT promised to match as a phrase (documented reasons)
+NO_QUOTED_PHRASE = {"stop-norenumber"}      # StopFilter(renumber=False): removed words leave position gaps by request
+
+
 FIELD_KINDS_FOR_ANALYZER = ["text-pos", "text-pos", "text-pos-chars", "text-pos-chars", "text-nopos", "keyword-ana",
                             "id-ana"]
 BUILTIN_FIELDS = ["KEYWORD", "KEYWORD-lower-commas", "ID", "IDLIST", "NGRAM", "NGRAM-phrase", "NGRAMWORDS",
@@ -497,6 +501,34 @@ def one_case(ctx, rng, CAT, names):
                             ctx.fail("c.phrase", "phrase-at-consecutive-query-time-positions-not-found:%s" % aname,
                                      dict(wit, words=[short(x, 40) for x in words], query_positions=run,
                                           index_tokens=[t.tup() for t in itoks[:16]], query_tokens=[t.tup() for t in qtoks[:16]]))
+                            break
+                # (c'') the quoted text typed by a user: the source text spanning 2..4 CONSECUTIVE index-time tokens (whatever lies
+                # between them in the source - stop words, punctuation - included), through the real parser. Tokens that the
+                # analyzer drops in between must not keep the kept ones apart, unless the analyzer is configured not to
+                # renumber (NO_QUOTED_PHRASE)
+                if (has_positions and has_offsets and parser is not None and posclass == "one" and aname not in NO_QUOTED_PHRASE
+                        and len(itoks) >= 2 and all(t.sc is not None for t in itoks)):
+                    rng3 = random.Random("c17-quoted:%r" % rng.random())
+                    for _try in range(3):
+                        a0 = rng3.randrange(len(itoks) - 1)
+                        b0 = min(len(itoks) - 1, a0 + rng3.choice([1, 1, 2, 3]))
+                        ptext = text[itoks[a0].sc:itoks[b0].ec]
+                        if (set(ptext) & PARSER_SPECIAL) or '"' in ptext or any(w_ in OPERATOR_WORDS for w_ in ptext.split()):
+                            continue
+                        if any(c_.isspace() and c_ != " " for c_ in ptext):
+                            continue        # the parser's quoted-phrase syntax does not span line breaks
+                        try:
+                            ptoks = [t.text for t in ana(ptext, mode="index")]
+                        except Exception:  # noqa
+                            continue
+                        if ptoks != [t.text for t in itoks[a0:b0 + 1]]:
+                            ctx.count("c.quoted_phrase_skipped_context")      # the piece analyses differently out of context
+                            continue
+                        ctx.count("c.quoted_phrase_checks")
+                        pq = parser.parse('"%s"' % ptext)
+                        if did not in ids(pq):
+                            ctx.fail("c.phrase", "quoted-own-text-not-found:%s" % aname,
+                                     dict(wit, quoted=short(ptext), parsed=repr(pq)[:300], index_tokens=[t.tup() for t in itoks[:16]]))
                             break
                 # (f) highlights
                 if has_offsets or True:
